@@ -1,22 +1,38 @@
 /-
 C08 — spread rewards and incentives reach exactly the liquidity that earned them.
 
-PROVED here (all inputs): the per-step credit arithmetic — the growth credited per unit of liquidity
-times the active liquidity never exceeds the (scaled) charge, hence positions whose liquidity adds up
-to at most the active liquidity (invariant (a) of C07) can never be credited more than was paid in;
-growth is linear in the shares held (k-fold liquidity ⇒ k-fold credit before rounding) and identical
-shares are credited identically.  The accumulator mechanics (what a position can claim = Σ growth ×
-shares held then, claim/add/remove neither lose nor duplicate) are the theorems of C15 over the same
-accumulator code.  NOT PROVED (decided by the `cl` engine's oracles on the real keeper only): the
-tick-crossing "growth outside" bookkeeping (`growth_inside_is_time_in_range`), uptime accumulators and
-the forfeit rule.
+Model: `Model/CLFees.lean` = `Model/CLPool.lean` (the C01/C03/C07 state machine, untouched) + the spread-reward
+bookkeeping (global accumulator, growth-outside per stored tick, accumulator record per position, claim with
+scale-down / dust re-deposit), tied to the keeper by the `cl` engine after EVERY op (`clp fdump`).
+History model and helper lemmas: Proofs/CLFees{Trace,Arith,Rec,Ops,Inv,Hist}.lean.
+
+PROVED here, for ALL histories (induction over the message list, unbounded), spread rewards:
+ * every reachable state satisfies C07's pool invariant and the accumulator-side invariant (`reachable_inv`);
+ * growth-outside bookkeeping: growth inside a range whose boundaries are stored ticks is unchanged by tick crossings in
+   either direction, by in-bucket tick moves, by initialisation/removal of other ticks, and grows by exactly the growth
+   added while lower ≤ currentTick < upper (`growth_inside_*`, `swap_growth_inside`, `growth_inside_history`);
+ * what a position can claim = trunc/scale-down of  unclaimed + round₁₈((growth inside now − snapshot) × liquidity)  — the
+   C15 accumulator formula with "growth inside the range" for "accumulator value" (`claimable_formula`), hence over a
+   history = the growth events while in range × liquidity (`claimable_after_history`);
+ * twins earn the same (`twins_equal_rewards`), a range the price never entered earns nothing
+   (`never_in_range_earns_nothing`), k-fold liquidity earns k-fold up to (k+1)/2 raw units (`k_fold_liquidity_raw`);
+ * collect pays exactly the claimable amount and resets the record; a second claim pays nothing in pools past the scaling
+   migration (`second_claim_pays_nothing_scaled`; scaling factor one: `_partial`, see there); a partial withdrawal parks
+   exactly the accrued amount in the record, a full withdrawal / add-to-position pays it out; a transfer changes nothing;
+ * the per-step credit arithmetic (growth × active liquidity ≤ charge × scale).
+NOT PROVED (decided by the `cl` engine's oracles on the real keeper only): the history-level SUM bound
+Σ positions (claimed + claimable) ≤ Σ paid in (+ dust) — the per-step ingredient `total_credit_le_charge` and C07's
+active-liquidity invariant are proved, the summation over the position list is not; the uptime accumulators and the
+forfeit rule (phase 2: engine oracles `incentives:*`).
 -/
 import OsmoVerif.Model.CLRewards
 import OsmoVerif.Proofs.NumLemmas
 import OsmoVerif.Props.C15
+import OsmoVerif.Proofs.CLFeesHist
+import OsmoVerif.Props.C07
 
 namespace OsmoVerif.Props.C08
-open OsmoVerif.CLRewards OsmoVerif.Num OsmoVerif.Spec
+open OsmoVerif.CLRewards OsmoVerif.Num OsmoVerif.Spec OsmoVerif.CLFees OsmoVerif.CLFeesP OsmoVerif.CLBook OsmoVerif.CLPool OsmoVerif.CL OsmoVerif.Gen
 
 theorem tdiv_mul_le {n d : Int} (hn : 0 ≤ n) (hd : 0 < d) : 0 ≤ n.tdiv d ∧ n.tdiv d * d ≤ n := by
   obtain ⟨e, hp, _⟩ := tdiv_tmod_spec n d hd
@@ -89,5 +105,402 @@ theorem no_liquidity_no_credit (charge scale : Int) : spreadGrowth charge 0 scal
 /-! non-vacuity -/
 example : spreadGrowth (3 * P18) (7 * P18) P18 = some 428571428571428571 := by decide +kernel
 example : spreadGrowth (3 * P18) (7 * P18) (10 ^ 27 * P18) = some 428571428571428571428571428571428571428571428 := by decide +kernel
+
+/-! # the spread-reward bookkeeping over histories -/
+
+/-! ## the model extends the pool state machine conservatively -/
+
+/-- the step-trace loop added for the fee layer is `swapLoopS` plus a trace. -/
+theorem trace_loop_refines_swap_loop (scale : Int) (og zfo : Bool) (spf limit : Int) (fuel : Nat) (st : SwapSt) (ahead : Ticks)
+    (steps crossed : Nat) :
+    (swapLoopT scale og zfo spf limit fuel st ahead steps crossed).map (·.1) =
+      swapLoopS scale og zfo spf limit fuel st ahead steps crossed :=
+  swapLoopT_fst scale og zfo spf limit fuel st ahead steps crossed
+
+/-- every successful message acts on the pool component exactly as the `CLPool` operation C01/C03/C07 speak about. -/
+theorem message_acts_on_pool_as_CLPool {f f' : Fees} {op : FOp} (h : applyF f op = some f') :
+    match op.toBook with
+    | some b => CLBook.apply f.pool b = some f'.pool
+    | none => f'.pool = f.pool :=
+  applyF_pool h
+
+/-! ## invariants of every reachable state -/
+
+theorem reachable_inv {s spf scale : Int} (hs : 0 < s) (hspf : SpfOK spf) (ops : List FOp) :
+    FullInv (runF (initF s spf scale) ops) :=
+  run_full ops (initF_full hs hspf)
+
+theorem reachable_inv_authorized {s spf scale : Int} (hs : s ∈ CL.AuthorizedTickSpacing) (hf : spf ∈ CL.AuthorizedSpreadFactors)
+    (ops : List FOp) : FullInv (runF (initF s spf scale) ops) :=
+  reachable_inv (C07.authorized_parameters_ok.1 s hs) (C07.authorized_parameters_ok.2 spf hf) ops
+
+/-- every position has an accumulator record holding exactly its liquidity, and both its boundary ticks carry a
+growth-outside value. -/
+theorem position_has_record {f : Fees} (hf : FullInv f) {q : Position} (hq : q ∈ f.pool.positions) :
+    (∃ r, getRec f.acc.recs q.id = some r ∧ r.shares = q.liq) ∧
+    (getOut f.acc.outs q.lower).isSome ∧ (getOut f.acc.outs q.upper).isSome := by
+  obtain ⟨r, hr, e, _⟩ := hf.acc.recs q hq
+  exact ⟨⟨r, hr, e⟩, hf.acc.stored q hq⟩
+
+/-! ## the growth-outside bookkeeping -/
+
+/-- growth added to the accumulator is credited to a range exactly when the current tick is inside it. -/
+theorem growth_inside_credited_iff_in_range {cur G g ol ou l u : Int} (hlu : l < u) :
+    insideI cur (G + g) ol ou l u = insideI cur G ol ou l u + (if l ≤ cur ∧ cur < u then g else 0) :=
+  insideI_grow hlu
+
+/-- crossing the lower (resp. upper) boundary tick — its stored value becomes accumulator − value, and its side of
+the current tick flips — leaves growth below (resp. above) it unchanged; both swap directions. -/
+theorem growth_outside_flip_on_crossing {cur cur' t G o : Int} (h : t ≤ cur ↔ ¬ t ≤ cur') :
+    belowI cur' t G (G - o) = belowI cur t G o ∧ aboveI cur' t G (G - o) = aboveI cur t G o :=
+  ⟨belowI_flip h, aboveI_flip h⟩
+
+/-- moving the current tick without passing the tick leaves them unchanged. -/
+theorem growth_outside_kept_in_bucket {cur cur' t G o : Int} (h : t ≤ cur ↔ t ≤ cur') :
+    belowI cur' t G o = belowI cur t G o ∧ aboveI cur' t G o = aboveI cur t G o :=
+  ⟨belowI_keep h, aboveI_keep h⟩
+
+/-- along the loop of one swap (any number of crossings, either direction): growth inside a range with stored
+boundaries increases by exactly the growth of the iterations that started with the current tick in the range. -/
+theorem swap_growth_inside {scale : Int} {zfo : Bool} {G : V2} {tl : Ticks} {ps : List Position} {l u : Int} (hlu : l < u)
+    (hl : ∃ n, (l, n) ∈ tl) (hu : ∃ n, (u, n) ∈ tl) (s : Bool)
+    (trs : List StepTrace) (cur cur' acc : Int) (outs : List (Int × V2)) (acc' : Int) (outs' : List (Int × V2)) (ol ou : V2)
+    (hok : TraceOK zfo tl ps cur trs cur') (hfold : foldTrace scale zfo G trs acc outs = some (acc', outs'))
+    (gl : getOut outs l = some ol) (gu : getOut outs u = some ou) :
+    ∃ ol' ou', getOut outs' l = some ol' ∧ getOut outs' u = some ou' ∧
+      insideI cur' (get s G + dlt s zfo acc') (get s ol') (get s ou') l u =
+        insideI cur (get s G + dlt s zfo acc) (get s ol) (get s ou) l u + dlt s zfo (traceGrowth scale l u trs) :=
+  foldTrace_inside hlu hl hu s trs cur cur' acc outs acc' outs' ol ou hok hfold gl gu
+
+/-- **growth inside = growth while in range**, between any two moments of any history, for a position that exists at
+both (under the same id; its boundary ticks then stay initialised in between): the difference is the sum of the growth
+events of the successful messages in between that happened while lower ≤ currentTick < upper. -/
+theorem growth_inside_history {f : Fees} (hf : FullInv f) (ops : List FOp) {q q' : Position}
+    (hq : q ∈ f.pool.positions) (hq' : q' ∈ (runF f ops).pool.positions) (hid : q'.id = q.id) :
+    q'.lower = q.lower ∧ q'.upper = q.upper ∧
+    ∀ s, get s (insideF (runF f ops) q.lower q.upper) =
+      get s (insideF f q.lower q.upper) + evSum s q.lower q.upper (effHist f ops) :=
+  run_inside ops hf q hq q' hq' hid
+
+/-! ## what a position can claim -/
+
+/-- the accumulator formula (C15) instantiated: claimable = whole tokens (scaled down) of
+`unclaimed + round₁₈((growth inside now − snapshot) × shares)`, per pool token. -/
+theorem claimable_formula {f : Fees} {id : Nat} {c : Int × Int} (h : CLFees.claimable f id = some c) :
+    ∃ (pos : Position) (r : Rec) (total : V2), pos ∈ f.pool.positions ∧ pos.id = id ∧ getRec f.acc.recs id = some r ∧
+      (∀ s, get s total = rewardI (get s r.unclaimed) (get s (insideF f pos.lower pos.upper) - get s r.snap) r.shares ∧
+        0 ≤ get s (insideF f pos.lower pos.upper) - get s r.snap) ∧
+      c = (claimAmt f.pool.scale total.a, claimAmt f.pool.scale total.b) :=
+  claimable_spec h
+
+/-- over a history that does not address the position: claimable at the end = whole tokens of
+`unclaimed₀ + round₁₈((growth inside₀ − snapshot₀ + Σ growth events while in range) × liquidity)`. -/
+theorem claimable_after_history {f : Fees} (hf : FullInv f) {q : Position} (hq : q ∈ f.pool.positions) {r : Rec}
+    (hr : getRec f.acc.recs q.id = some r) (ops : List FOp) (ht : ∀ op ∈ ops, ¬ touches op q.id)
+    {c : Int × Int} (hc : CLFees.claimable (runF f ops) q.id = some c) :
+    ∃ total : V2,
+      (∀ s, get s total = rewardI (get s r.unclaimed)
+        (get s (insideF f q.lower q.upper) + evSum s q.lower q.upper (effHist f ops) - get s r.snap) r.shares) ∧
+      c = (claimAmt (runF f ops).pool.scale total.a, claimAmt (runF f ops).pool.scale total.b) := by
+  obtain ⟨pos, r', total, hmem, hid, hr', htot, hcc⟩ := claimable_spec hc
+  have hfr := run_rec_frame ops hf (x := q.id) (by rw [hr]; rfl) ht
+  rw [hfr, hr] at hr'
+  injection hr' with hr'
+  subst hr'
+  obtain ⟨e1, e2, hin⟩ := run_inside ops hf q hq pos hmem hid
+  refine ⟨total, fun s => ?_, hcc⟩
+  rw [(htot s).1, e1, e2, hin s]
+
+theorem evSum_zero_of_never_in_range {s : Bool} {l u : Int} :
+    ∀ {evs : List Ev}, (∀ e ∈ evs, ¬ (l ≤ e.1 ∧ e.1 < u)) → evSum s l u evs = 0
+  | [], _ => rfl
+  | e :: es, h => by
+    simp only [evSum]
+    rw [if_neg (h e List.mem_cons_self), evSum_zero_of_never_in_range (fun x hx => h x (List.mem_cons_of_mem _ hx))]
+    rfl
+
+theorem claimAmt_zero (scale : Int) : claimAmt scale 0 = 0 := by
+  unfold claimAmt scaleDownZ; split <;> simp
+
+/-- **a position whose range the price never entered earns nothing**: a fresh record (nothing unclaimed, snapshot =
+growth inside at that moment — what creation produces, `create_gives_fresh_record`) and no growth event while the
+current tick was in range ⇒ nothing claimable, whatever else happened (swaps crossing other ticks, other positions'
+operations, claims). -/
+theorem never_in_range_earns_nothing {f : Fees} (hf : FullInv f) {q : Position} (hq : q ∈ f.pool.positions) {r : Rec}
+    (hr : getRec f.acc.recs q.id = some r) (hfresh : r.unclaimed = V2.zero ∧ r.snap = insideF f q.lower q.upper)
+    (ops : List FOp) (ht : ∀ op ∈ ops, ¬ touches op q.id)
+    (hnever : ∀ e ∈ effHist f ops, ¬ (q.lower ≤ e.1 ∧ e.1 < q.upper))
+    {c : Int × Int} (hc : CLFees.claimable (runF f ops) q.id = some c) : c = (0, 0) := by
+  obtain ⟨total, htot, hcc⟩ := claimable_after_history hf hq hr ops ht hc
+  have hz : ∀ s, get s total = 0 := by
+    intro s
+    rw [htot s, hfresh.1, hfresh.2, get_zero, evSum_zero_of_never_in_range hnever]
+    unfold rewardI
+    have : get s (insideF f q.lower q.upper) + 0 - get s (insideF f q.lower q.upper) = 0 := by omega
+    rw [this, Int.zero_mul]; decide
+  have ha : total.a = 0 := hz true
+  have hb : total.b = 0 := hz false
+  rw [hcc, ha, hb, claimAmt_zero]
+
+/-- creation produces a fresh record: shares = liquidity, snapshot = growth inside now, nothing unclaimed. -/
+theorem create_gives_fresh_record {f f' : Fees} {owner : String} {lower upper a0 a1 : Int} {id : Nat} {x0 x1 liq lo up : Int}
+    (hf : FullInv f) (h : CLFees.createPosition f owner lower upper a0 a1 = some (f', id, x0, x1, liq, lo, up)) :
+    getRec f'.acc.recs id = some ⟨id, liq, insideF f' lo up, V2.zero⟩ ∧
+    f'.pool.positions = f.pool.positions ++ [⟨id, owner, lo, up, liq⟩] := by
+  obtain ⟨_, _, hrec, _, _, hpos, _⟩ := createMin_facts hf.pool.core hf.acc h
+  exact ⟨hrec, hpos⟩
+
+/-- **twins**: two positions with the same range whose records agree (same liquidity, same snapshot, same unclaimed —
+the case for positions created at the same moment and claimed at the same moments) can claim the same at every later
+moment of every history that addresses neither. -/
+theorem twins_equal_rewards {f : Fees} (hf : FullInv f) {q1 q2 : Position} (h1 : q1 ∈ f.pool.positions) (h2 : q2 ∈ f.pool.positions)
+    (hrange : q1.lower = q2.lower ∧ q1.upper = q2.upper) {r1 r2 : Rec}
+    (hr1 : getRec f.acc.recs q1.id = some r1) (hr2 : getRec f.acc.recs q2.id = some r2)
+    (hsame : r1.shares = r2.shares ∧ r1.snap = r2.snap ∧ r1.unclaimed = r2.unclaimed)
+    (ops : List FOp) (ht : ∀ op ∈ ops, ¬ touches op q1.id ∧ ¬ touches op q2.id)
+    {c1 c2 : Int × Int} (hc1 : CLFees.claimable (runF f ops) q1.id = some c1) (hc2 : CLFees.claimable (runF f ops) q2.id = some c2) :
+    c1 = c2 := by
+  obtain ⟨t1, ht1, e1⟩ := claimable_after_history hf h1 hr1 ops (fun op ho => (ht op ho).1) hc1
+  obtain ⟨t2, ht2, e2⟩ := claimable_after_history hf h2 hr2 ops (fun op ho => (ht op ho).2) hc2
+  have : t1 = t2 := by
+    apply get_ext; intro s
+    rw [ht1 s, ht2 s, hrange.1, hrange.2, hsame.1, hsame.2.1, hsame.2.2]
+  rw [e1, e2, this]
+
+/-- two positions created one after the other with the same range and resulting liquidity ARE twins: equal records. -/
+theorem twins_created_together {f f1 f2 : Fees} {o1 o2 : String} {l1 u1 a0 a1 l2 u2 b0 b1 : Int} {id1 id2 : Nat}
+    {x0 x1 y0 y1 liq lo up : Int} (hf : FullInv f)
+    (h1 : CLFees.createPosition f o1 l1 u1 a0 a1 = some (f1, id1, x0, x1, liq, lo, up))
+    (h2 : CLFees.createPosition f1 o2 l2 u2 b0 b1 = some (f2, id2, y0, y1, liq, lo, up)) :
+    ∃ r1 r2, getRec f2.acc.recs id1 = some r1 ∧ getRec f2.acc.recs id2 = some r2 ∧
+      r1.shares = r2.shares ∧ r1.snap = r2.snap ∧ r1.unclaimed = r2.unclaimed := by
+  have hap : applyF f (.create o1 l1 u1 a0 a1) = some f1 := by simp only [applyF, h1, Option.map_some]
+  have hf1 := (apply_facts hf hap).1
+  obtain ⟨_, eid1, hrec1, _, _, hpos1, _⟩ := createMin_facts hf.pool.core hf.acc h1
+  obtain ⟨sf2, eid2, hrec2, fr2, _, hpos2, _⟩ := createMin_facts hf1.pool.core hf1.acc h2
+  have hlt : id1 < f1.pool.nextId := hf1.acc.recIds id1 (by rw [hrec1]; rfl)
+  have hmem1 : (⟨id1, o1, lo, up, liq⟩ : Position) ∈ f1.pool.positions := by rw [hpos1]; simp
+  have hmem2 : (⟨id1, o1, lo, up, liq⟩ : Position) ∈ f2.pool.positions := by rw [hpos2]; simp [hmem1]
+  have hin := sf2.inside _ hmem1 _ hmem2 rfl
+  refine ⟨⟨id1, liq, insideF f1 lo up, V2.zero⟩, ⟨id2, liq, insideF f2 lo up, V2.zero⟩,
+    by rw [fr2 id1 (by omega)]; exact hrec1, hrec2, rfl, ?_, rfl⟩
+  apply get_ext; intro s
+  have := hin s
+  simp only [evSum, Int.add_zero] at this
+  exact this.symm
+
+/-! ## k-fold liquidity -/
+
+theorem chopRound_bound {x : Int} (hx : 0 ≤ x) : 2 * (chopRound P18 x * P18 - x) ≤ P18 ∧ -P18 ≤ 2 * (chopRound P18 x * P18 - x) := by
+  have hP : P18 = 1000000000000000000 := by decide
+  obtain ⟨e, hp, _⟩ := tdiv_tmod_spec x P18 (by decide)
+  have hr := hp hx
+  unfold chopRound
+  rw [if_neg (by omega)]
+  unfold chopRoundNonneg
+  simp only
+  have h2 : P18.tdiv 2 = 500000000000000000 := by decide
+  rw [h2]
+  have hq1 : (x.tdiv P18 + 1) * P18 = x.tdiv P18 * P18 + P18 := by rw [Int.add_mul, Int.one_mul]
+  split
+  · constructor <;> omega
+  · split
+    · constructor <;> omega
+    · split
+      · rw [hq1]; constructor <;> omega
+      · split
+        · constructor <;> omega
+        · rw [hq1]; constructor <;> omega
+
+/-- **k-fold liquidity earns k-fold, up to rounding**: the accrued amount (raw 18-decimal units, before the truncation
+to whole tokens) of a record with `k·s` shares differs from `k` times that of a record with `s` shares over the same
+growth `d` by at most `(k+1)/2` units of 10⁻¹⁸. -/
+theorem k_fold_liquidity_raw {d s k : Int} (hd : 0 ≤ d) (hs : 0 ≤ s) (hk : 0 ≤ k) :
+    2 * (rewardI 0 d (k * s) - k * rewardI 0 d s) ≤ k + 1 ∧ -(k + 1) ≤ 2 * (rewardI 0 d (k * s) - k * rewardI 0 d s) := by
+  unfold rewardI
+  simp only [Int.zero_add]
+  have hP : P18 = 1000000000000000000 := by decide
+  have hx : 0 ≤ d * s := Int.mul_nonneg hd hs
+  have hy : 0 ≤ d * (k * s) := Int.mul_nonneg hd (Int.mul_nonneg hk hs)
+  obtain ⟨a1, a2⟩ := chopRound_bound hx
+  obtain ⟨b1, b2⟩ := chopRound_bound hy
+  have e : d * (k * s) = k * (d * s) := by rw [← Int.mul_assoc, Int.mul_comm d k, Int.mul_assoc]
+  rw [e] at b1 b2 ⊢
+  -- k × the first bound
+  have k1 : k * (2 * (chopRound P18 (d * s) * P18 - d * s)) ≤ k * P18 := Int.mul_le_mul_of_nonneg_left a1 hk
+  have k2 : k * (-P18) ≤ k * (2 * (chopRound P18 (d * s) * P18 - d * s)) := Int.mul_le_mul_of_nonneg_left a2 hk
+  have e1 : k * (2 * (chopRound P18 (d * s) * P18 - d * s)) = 2 * (k * chopRound P18 (d * s)) * P18 - 2 * (k * (d * s)) := by
+    rw [Int.mul_sub, Int.mul_sub]
+    have : k * (2 * (chopRound P18 (d * s) * P18)) = 2 * (k * chopRound P18 (d * s)) * P18 := by
+      rw [← Int.mul_assoc, Int.mul_comm k 2, Int.mul_assoc 2, ← Int.mul_assoc k, Int.mul_assoc 2]
+    rw [this]
+    have : k * (2 * (d * s)) = 2 * (k * (d * s)) := by
+      rw [← Int.mul_assoc, Int.mul_comm k 2, Int.mul_assoc]
+    rw [this]
+  rw [e1] at k1 k2
+  have e2 : k * -P18 = -(k * P18) := Int.mul_neg k P18
+  rw [e2] at k2
+  rw [hP] at *
+  constructor <;> omega
+
+/-! ## claiming, withdrawing, adding, transferring neither lose nor duplicate -/
+
+/-- collect pays exactly what the query reports as claimable (same state, same computation), out of the spread-reward
+address, only to the owner, and re-bases the record: nothing unclaimed, snapshot = growth inside now. -/
+theorem collect_pays_exactly_claimable {f f' : Fees} {sender : String} {id : Nat} {c0 c1 : Int} (hf : FullInv f)
+    (h : CLFees.collect f sender id = some (f', c0, c1)) :
+    CLFees.claimable f id = some (c0, c1) ∧ f'.out0 = f.out0 + c0 ∧ f'.out1 = f.out1 + c1 ∧ f'.pool = f.pool ∧
+    ∃ pos r, pos ∈ f.pool.positions ∧ pos.id = id ∧ sender = pos.owner ∧ getRec f.acc.recs id = some r ∧
+      getRec f'.acc.recs id = some ⟨id, r.shares, insideF f pos.lower pos.upper, V2.zero⟩ := by
+  obtain ⟨pos, hfind, hown, hcl, hpool, ho0, ho1, _⟩ := collect_spec h
+  obtain ⟨_, _, pos', r, total, hm, hid, hown', hr, _, _, _, hrec, _⟩ := collect_facts hf.pool.core hf.acc h
+  refine ⟨?_, ho0, ho1, hpool, pos', r, hm, hid, hown', hr, hrec⟩
+  unfold CLFees.claimable findPos
+  rw [hfind]
+  simp only [Option.bind_some, hcl, Option.map_some]
+
+/-- a non-owner cannot collect. -/
+theorem collect_by_non_owner_fails {f : Fees} {sender : String} {id : Nat} {pos : Position}
+    (hfind : f.pool.positions.find? (fun x => decide (x.id = id)) = some pos) (hne : sender ≠ pos.owner) :
+    CLFees.collect f sender id = none := by
+  unfold CLFees.collect findPos
+  rw [hfind]
+  simp only [Option.bind_some, ne_eq, hne, not_false_eq_true, ↓reduceIte]
+
+/-- **a second claim pays nothing** in pools past the accumulator scaling migration (scaling factor ≠ 1: no dust goes
+back into the accumulator). -/
+theorem second_claim_pays_nothing_scaled {f f' : Fees} {sender : String} {id : Nat} {c0 c1 : Int} (hf : FullInv f)
+    (hscale : f.pool.scale ≠ P18) (h : CLFees.collect f sender id = some (f', c0, c1))
+    {c : Int × Int} (hc : CLFees.claimable f' id = some c) : c = (0, 0) := by
+  obtain ⟨sf, hpool, pos, r, total, hm, hid, _, hr, _, _, _, hrec, _, eo, _, eg, _⟩ := collect_facts hf.pool.core hf.acc h
+  obtain ⟨pos2, r2, total2, hm2, hid2, hr2, htot2, hcc⟩ := claimable_spec hc
+  rw [hrec] at hr2; injection hr2 with hr2; subst hr2
+  rw [hpool] at hm2
+  have : pos2 = pos := mem_eq_of_id hf.pool.core.pos.uniq hm2 hm (by rw [hid2, hid])
+  subst this
+  have hin : ∀ s, get s (insideF f' pos2.lower pos2.upper) = get s (insideF f pos2.lower pos2.upper) := by
+    intro s
+    have hm' : pos2 ∈ f'.pool.positions := by rw [hpool]; exact hm
+    have := sf.inside pos2 hm pos2 hm' rfl s
+    rw [this, evSum_single, get_vsub, eg s]
+    unfold dustGrowthI
+    rw [if_neg hscale]
+    split <;> omega
+  have hz : ∀ s, get s total2 = 0 := by
+    intro s
+    rw [(htot2 s).1, hin s]
+    simp only [get_zero]
+    unfold rewardI
+    rw [Int.sub_self, Int.zero_mul]; decide
+  have ha : total2.a = 0 := hz true
+  have hb : total2.b = 0 := hz false
+  rw [hcc, ha, hb, claimAmt_zero]
+
+/-- scaling factor one: the forfeited sub-unit dust of the claim goes back into the accumulator per unit of TOTAL
+shares, so a second claim sees `round₁₈(dust·10¹⁸/totalShares × shares)` raw units — below one token because
+shares ≤ totalShares.  PARTIAL: the formula is proved; the conclusion "= 0 tokens" needs the invariant
+totalShares = Σ record shares, which is not proved here (the engine checks `rewards:duplicate-claim` after every collect). -/
+theorem second_claim_formula_unscaled_partial {f f' : Fees} {sender : String} {id : Nat} {c0 c1 : Int} (hf : FullInv f)
+    (h : CLFees.collect f sender id = some (f', c0, c1)) {c : Int × Int} (hc : CLFees.claimable f' id = some c) :
+    ∃ (pos : Position) (r : Rec) (total : V2), pos ∈ f.pool.positions ∧ pos.id = id ∧ getRec f.acc.recs id = some r ∧
+      c = (claimAmt f.pool.scale (rewardI 0 (if pos.lower ≤ f.pool.tick ∧ f.pool.tick < pos.upper
+              then dustGrowthI f.pool.scale total.a f.acc.totalShares else 0) r.shares),
+           claimAmt f.pool.scale (rewardI 0 (if pos.lower ≤ f.pool.tick ∧ f.pool.tick < pos.upper
+              then dustGrowthI f.pool.scale total.b f.acc.totalShares else 0) r.shares)) := by
+  obtain ⟨sf, hpool, pos, r, total, hm, hid, _, hr, _, _, _, hrec, _, eo, _, eg, _⟩ := collect_facts hf.pool.core hf.acc h
+  obtain ⟨pos2, r2, total2, hm2, hid2, hr2, htot2, hcc⟩ := claimable_spec hc
+  rw [hrec] at hr2; injection hr2 with hr2; subst hr2
+  rw [hpool] at hm2
+  have : pos2 = pos := mem_eq_of_id hf.pool.core.pos.uniq hm2 hm (by rw [hid2, hid])
+  subst this
+  have hin : ∀ s, get s (insideF f' pos2.lower pos2.upper) - get s (insideF f pos2.lower pos2.upper) =
+      if pos2.lower ≤ f.pool.tick ∧ f.pool.tick < pos2.upper then dustGrowthI f.pool.scale (get s total) f.acc.totalShares else 0 := by
+    intro s
+    have hm' : pos2 ∈ f'.pool.positions := by rw [hpool]; exact hm
+    have := sf.inside pos2 hm pos2 hm' rfl s
+    rw [this, evSum_single, get_vsub, eg s]
+    split <;> omega
+  refine ⟨pos2, r, total, hm, hid, hr, ?_⟩
+  have ha := (htot2 true).1
+  have hb := (htot2 false).1
+  simp only [get_zero] at ha hb
+  rw [hin true] at ha; rw [hin false] at hb
+  have ha' : total2.a = _ := ha
+  have hb' : total2.b = _ := hb
+  rw [hcc, hpool, ha', hb']
+  rfl
+
+/-- **partial withdrawal parks the accrued rewards in the record** (nothing paid, nothing lost): the record's
+`unclaimed` becomes exactly the raw total a claim would have been computed from, its snapshot the growth inside now;
+**full withdrawal pays it out** (`claimAmt` of the same total) and removes the record. -/
+theorem withdraw_settles_rewards {f f' : Fees} {owner : String} {id : Nat} {req o0 o1 : Int} (hf : FullInv f)
+    (h : CLFees.withdrawPosition f owner id req = some (f', o0, o1)) :
+    ∃ (pos : Position) (r : Rec) (rewards : V2), pos ∈ f.pool.positions ∧ pos.id = id ∧ owner = pos.owner ∧
+      getRec f.acc.recs id = some r ∧
+      (∀ s, get s rewards = rewardI (get s r.unclaimed) (get s (insideF f pos.lower pos.upper) - get s r.snap) r.shares) ∧
+      ((req ≠ pos.liq ∧ getRec f'.acc.recs id = some ⟨id, pos.liq - req, insideF f pos.lower pos.upper, rewards⟩ ∧
+          f'.out0 = f.out0 ∧ f'.out1 = f.out1) ∨
+       (req = pos.liq ∧ getRec f'.acc.recs id = none ∧
+          f'.out0 = f.out0 + claimAmt f.pool.scale rewards.a ∧ f'.out1 = f.out1 + claimAmt f.pool.scale rewards.b)) := by
+  obtain ⟨_, _, pos, r, rewards, hm, hid, hown, hr, _, _, _, hrew, hcase⟩ := withdraw_facts hf.pool.core hf.acc h
+  refine ⟨pos, r, rewards, hm, hid, hown, hr, fun s => (hrew s).1, ?_⟩
+  rcases hcase with ⟨a, b, _, c, d, _⟩ | ⟨a, b, c, d, _⟩
+  · exact Or.inl ⟨a, b, c, d⟩
+  · exact Or.inr ⟨a, b, c, d⟩
+
+/-- add-to-position = full withdrawal of the old position (which pays its rewards out, see above) + creation of a
+fresh position (new id, nothing unclaimed). -/
+theorem add_is_full_withdraw_then_create {f f' : Fees} {owner : String} {id nid : Nat} {add0 add1 x0 x1 : Int}
+    (h : CLFees.addToPosition f owner id add0 add1 = some (f', nid, x0, x1)) :
+    ∃ (pos : Position) (f1 : Fees) (w0 w1 liq lo up : Int),
+      f.pool.positions.find? (fun x => decide (x.id = id)) = some pos ∧
+      CLFees.withdrawPosition f owner id pos.liq = some (f1, w0, w1) ∧
+      CLFees.createPositionMin f1 owner pos.lower pos.upper (w0 + add0) (w1 + add1) w0 w1 = some (f', nid, x0, x1, liq, lo, up) := by
+  obtain ⟨pos, f1, w0, w1, liq, lo, up, hfind, _, _, _, hw, _, hc⟩ := add_spec h
+  exact ⟨pos, f1, w0, w1, liq, lo, up, hfind, hw, hc⟩
+
+/-- a transfer changes the owner only: accumulator, records, paid-out totals and the current tick are untouched, so
+the new owner can claim exactly what the old one could. -/
+theorem transfer_keeps_rewards {f f' : Fees} {sender : String} {id : Nat} {newOwner : String} (hf : FullInv f)
+    (h : CLFees.transferPosition f sender id newOwner = some f') :
+    f'.acc = f.acc ∧ f'.out0 = f.out0 ∧ f'.out1 = f.out1 ∧ f'.pool.tick = f.pool.tick ∧
+    f'.pool.positions = (f.pool.positions.map fun q => if q.id = id then { q with owner := newOwner } else q) := by
+  obtain ⟨_, a, b, c, d, e⟩ := transfer_facts hf.pool.core hf.acc h
+  exact ⟨a, b, c, d, e⟩
+
+/-- operations that do not address a position leave its record untouched (frame). -/
+theorem untouched_record_unchanged {f : Fees} (hf : FullInv f) (ops : List FOp) {x : Nat}
+    (hx : (getRec f.acc.recs x).isSome) (ht : ∀ op ∈ ops, ¬ touches op x) :
+    getRec (runF f ops).acc.recs x = getRec f.acc.recs x :=
+  run_rec_frame ops hf hx ht
+
+/-! non-vacuity: a history with three positions (alice in range, carol below the price), swaps in both directions
+crossing initialised ticks, a collect, a partial withdrawal and a second collect -/
+
+def demoF : Fees := initF 100 2000000000000000 P18
+def demoFOps : List FOp :=
+  [.create "alice" (-1000) 1000 1000000 1000000, .create "bob" 0 2000 500000 500000, .create "carol" (-3000) (-1000) 0 7000000,
+   .swap true true 3000000, .swap true false 3000000, .collect "alice" 1, .withdraw "alice" 1 1000000000000000000000,
+   .swap true true 200000, .collect "alice" 1, .collect "bob" 1]
+
+example : SpfOK demoF.pool.spf ∧ 0 < demoF.pool.spacing := ⟨⟨by decide, by decide⟩, by decide⟩
+
+/-- the first swap crosses ticks 0 and −1000 (carol's range is entered: she earns, bob never does), the second comes
+back; alice is paid what the query reported, a second claim pays nothing, the partial withdrawal keeps her accruing,
+and bob cannot collect alice's position. -/
+example :
+    (runF demoF (demoFOps.take 4)).pool.tick = -1827 ∧ (runF demoF (demoFOps.take 5)).pool.tick = 0 ∧
+    (runF demoF (demoFOps.take 5)).acc.outs.map (·.1) = [-3000, -1000, 0, 1000, 2000] ∧
+    CLFees.claimable (runF demoF (demoFOps.take 5)) 1 = some (200, 201) ∧
+    CLFees.claimable (runF demoF (demoFOps.take 5)) 2 = some (0, 0) ∧
+    CLFees.claimable (runF demoF (demoFOps.take 5)) 3 = some (5799, 5798) ∧
+    (runF demoF (demoFOps.take 6)).out0 = 200 ∧ (runF demoF (demoFOps.take 6)).out1 = 201 ∧
+    CLFees.claimable (runF demoF (demoFOps.take 6)) 1 = some (0, 0) ∧
+    CLFees.claimable (runF demoF (demoFOps.take 8)) 1 = some (201, 0) ∧
+    applyF (runF demoF (demoFOps.take 9)) (.collect "bob" 1) = none := by
+  decide +kernel
+
+/-- the invariants hold along this history (instance of `reachable_inv`). -/
+example : FullInv (runF demoF demoFOps) := reachable_inv (by decide) ⟨by decide, by decide⟩ demoFOps
 
 end OsmoVerif.Props.C08
